@@ -178,7 +178,7 @@ func trimLastInvalidRune(s string) string {
 		if b := s[i]; b < utf8.RuneSelf {
 			return s[:i+1]
 		} else if utf8.RuneStart(b) {
-			if r, _ := utf8.DecodeRuneInString(s[i:]); r == utf8.RuneError {
+			if r, size := utf8.DecodeRuneInString(s[i:]); r == utf8.RuneError && size <= 1 {
 				return s[:i]
 			}
 			break
